@@ -1,5 +1,7 @@
+mod bussig;
 mod exhaust;
 mod proj;
+mod replay;
 mod scenario;
 
 use serde_json::json;
@@ -22,6 +24,8 @@ fn main() {
         "decode-check" => exhaust::decode_check(&args[2]),
         "nextaddr-check" => exhaust::nextaddr_check(&args[2]),
         "scenario" => scenario::run_script(&args[2], &args[3]),
+        "bus-sig-check" => bussig::check(&args[2]),
+        "replay" => replay::replay_file(&args[2]),
         _ => usage(),
     }
 }
